@@ -51,6 +51,55 @@ def max_score(cost, score, ps, budget):
     return best
 
 
+def total(cost, S):
+    return sum((cost[p] for p in S), F(0))
+
+
+def feasible(cost, S, budget):
+    return total(cost, S) <= budget
+
+
+def exhaustive(cost, S, avail, budget):
+    """no available project outside S fits on top of S"""
+    c = total(cost, S)
+    return not any(p not in S and c + cost[p] <= budget for p in avail)
+
+
+def trivial(cost, ps, budget):
+    """everything fits, or nothing does (no non-empty subset is feasible)"""
+    if total(cost, ps) <= budget:
+        return True
+    return not any(len(s) > 0 and total(cost, s) <= budget for s in subsets(ps))
+
+
+def sublists_model(xs):
+    """the enumeration order of the Lean model's `sublists` (without head first, then with head)"""
+    xs = list(xs)
+    if not xs:
+        return [[]]
+    r = sublists_model(xs[1:])
+    return r + [[xs[0]] + l for l in r]
+
+
+FLOAT_MEASURES = ("Cost_Sqrt_Sat", "Cost_Log_Sat", "Additive_Cost_Sqrt_Sat", "Additive_Cost_Log_Sat")
+
+
+def sat_float(measure, case, ballot, S):
+    """documented value of the float-based measures (math.sqrt / math.log of the exact argument)"""
+    import math
+
+    S = [p for p in S if p in ballot]
+    if measure == "Cost_Sqrt_Sat":
+        return math.sqrt(total(case.cost, S))
+    if measure == "Cost_Log_Sat":
+        return math.log(1 + total(case.cost, S))
+    if measure == "Additive_Cost_Sqrt_Sat":
+        return math.fsum(math.sqrt(case.cost[p]) for p in S)
+    if measure == "Additive_Cost_Log_Sat":
+        return math.fsum(math.log(1 + case.cost[p]) for p in S)
+    raise KeyError(measure)
+
+
 def sat_project(measure, case, ballot, p, voters=None):
     """documented per-project value of an additive measure, for one voter's ballot"""
     cost, budget, btype = case.cost, case.budget, case.btype
